@@ -1421,16 +1421,27 @@ func (p *Prog) forAllByContainsFunc(fn *ssa.Function) bool {
 	if !isRet || len(pret.Results) != 1 {
 		return false
 	}
-	bo, isBin := pret.Results[0].(*ssa.BinOp)
-	if !isBin || bo.Op != token.EQL {
-		return false
+	var look *ssa.Lookup
+	if bo, isBin := pret.Results[0].(*ssa.BinOp); isBin && bo.Op == token.EQL {
+		lk, zero := bo.X, bo.Y
+		if _, isL := lk.(*ssa.Lookup); !isL {
+			lk, zero = zero, lk
+		}
+		l, isL := lk.(*ssa.Lookup)
+		if zc, isC := zero.(*ssa.Const); isL && isC && constString(zc) == "0" {
+			look = l
+		}
+	} else if cm := p.NormCmp(pret.Results[0], true); cm != nil && cm.Op == token.EQL && cm.LC == 0 && cm.RC == 0 {
+		// the zero test named by an expression helper: return isEmpty(distribution[k])
+		l, r := deepStrip(cm.L), deepStrip(cm.R)
+		if r.String() != "0" {
+			l, r = r, l
+		}
+		if r.String() == "0" && l.Op == "index" {
+			look, _ = l.V.(*ssa.Lookup)
+		}
 	}
-	lk, zero := bo.X, bo.Y
-	if _, isL := lk.(*ssa.Lookup); !isL {
-		lk, zero = zero, lk
-	}
-	look, isL := lk.(*ssa.Lookup)
-	if zc, isC := zero.(*ssa.Const); !isL || !isC || constString(zc) != "0" || look.CommaOk || look.Index != ssa.Value(pred.Params[0]) {
+	if look == nil || look.CommaOk || look.Index != ssa.Value(pred.Params[0]) {
 		return false
 	}
 	// the map looked up: a free variable bound to a map parameter of fn
